@@ -609,7 +609,7 @@ def correspondence(ctx):
         ctx.count("shared_state_sites_new_or_changed", len(new) + len(gone))
         ctx.escalated = True
         ctx.shared_state_changed = True
-    cases = list(WITNESS_CASES) + gen_cases(ctx, "corr", ctx.budget(300, 5000), malformed_rate=0.15)
+    cases = list(WITNESS_CASES) + gen_cases(ctx, "corr", ctx.budget(300, 4000), malformed_rate=0.15)
     cases += ambient_cases(ctx, "corr-ambient", ctx.budget(30, 600))
     cases += spelling_cases() + interval_cases() + orbit_cases()
     reqs_c = ["rrule.construct " + wire(c) for c in cases]
@@ -831,7 +831,7 @@ def oracle(ctx):
     evaluate(ctx, amb)
     if not getattr(ctx, "shared_state_changed", False):
         interleave_stream(ctx)
-    rng_cases = gen_cases(ctx, "oracle", ctx.budget(400, 6500))
+    rng_cases = gen_cases(ctx, "oracle", ctx.budget(400, 5000))
     for i in range(0, len(rng_cases), 500):
         evaluate(ctx, rng_cases[i:i + 500])
         if len(unknown_violations(ctx)) >= 3:
@@ -946,7 +946,7 @@ def interleave_stream(ctx):
     rng = ctx.subrng("interleave")
     for c, hist in HIST_SEEDS:
         run_hist_case(ctx, dict(c), hist, "seed")
-    n = ctx.budget(70, 300)
+    n = ctx.budget(70, 200)
     done = 0
     tries = 0
     while done < n and tries < 3 * n:
